@@ -1,4 +1,5 @@
 import Goirc.Spec.HSet
+import Goirc.Props.C14
 import Goirc.Proofs.C04
 /-!
 # C04 — Every registered handler runs exactly once per matching event
@@ -100,5 +101,25 @@ theorem remove_only_that_reachable (ext : Go.UnicodeExt) (ops : List Op) (k : Id
     ((AL.lookup (Spec.HSet.remove (runS ext [] 0 ops) k) name).getD []) =
       ((AL.lookup (runS ext [] 0 ops) name).getD []).filter (·.1 != k) :=
   remove_only_that _ (reachable_keys_nodup ext ops [] 0 (by simp)) k name
+
+/-- operations on a handler set as calls guarded by its lock (`add`/`remove` take `hs.Lock()`, `getHandlers`
+takes `hs.RLock()`; treating the read lock as exclusive is sound for this statement because snapshots do not write) -/
+inductive LOp
+  | add (ev : Bytes) (h : Nat)
+  | remove (k : Nat)
+  | get (ev : Bytes)
+
+def lstep (ext : Go.UnicodeExt) (hs : HS) : LOp → HS × List Id
+  | .add ev h => ((add ext hs ev h).1, [(add ext hs ev h).2])
+  | .remove k => (remove hs k, [])
+  | .get ev => (hs, getHandlers hs ev)
+
+/-- registrations / removals racing with dispatch from other goroutines: whatever the interleaving, the set is
+always what executing the calls one at a time in lock order produces, and every snapshot a dispatch takes is the
+one that serial execution gives (instance of `Props.C14.locked_ops_atomic`) -/
+theorem hset_serialised (ext : Go.UnicodeExt) {s : Go.Locked.St HS LOp (List Id)}
+    (h : Go.Locked.Reach (lstep ext) {} s) :
+    Go.Locked.seqRun (lstep ext) {} (s.hist.map (·.2.1)) = (s.obj, s.hist.map (·.2.2)) :=
+  Props.C14.locked_ops_atomic (lstep ext) {} h
 
 end Props.C04
